@@ -2,7 +2,6 @@ package main
 
 import (
 	"fmt"
-	"go/types"
 	"os"
 	"sort"
 	"strings"
@@ -616,85 +615,66 @@ func ruleKeys(c *Ctx) *RuleResult {
 		}
 	}
 	// the sort adapters
-	for _, less := range allFuncs(c.SLib) {
-		if less.Name() != "Less" || less.Signature.Recv() == nil {
-			continue
-		}
-		pt, ok := less.Signature.Recv().Type().Underlying().(*types.Pointer)
-		if !ok {
-			continue
-		}
-		st, ok := pt.Elem().Underlying().(*types.Struct)
-		if !ok {
-			continue
-		}
-		latch := -1
-		for i := 0; i < st.NumFields(); i++ {
-			if b, ok := st.Field(i).Type().Underlying().(*types.Basic); ok && b.Kind() == types.Bool {
-				latch = i
-			}
-		}
-		if latch < 0 {
-			continue
-		}
-		noLatch := map[string]bool{}
-		var badPairs []string
-		for _, a := range UJSON.each() {
-			for _, b := range UJSON.each() {
-				x := c.newExec(UJSON, fmt.Sprintf("%s keys (%s, %s)", fname(less), a, b))
-				x.hyp = atomHyp([]Atoms{a, b})
-				x.hypFns[c.A.Exec] = true
-				h := newHeap()
-				o := &aobj{kind: 's'}
-				for i := 0; i < st.NumFields(); i++ {
-					ft := st.Field(i).Type()
-					switch {
-					case i == latch:
-						o.fields = append(o.fields, AV{k: 'B', tri: 2})
-					case c.isASTNode(ft):
-						o.fields = append(o.fields, AV{k: 'O', what: "node expref-body"})
-					default:
-						if _, isSl := ft.Underlying().(*types.Slice); isSl {
-							o.fields = append(o.fields, AV{k: 'L', tri: 2, atoms: AArrMix, elemK: 'I', prov: "items"})
-						} else {
-							o.fields = append(o.fields, AV{k: 'P', tri: 2, what: "interp"})
-						}
-					}
-				}
-				id := h.alloc(o)
-				x.run(less, []AV{{k: 'P', tri: 2, obj: id}, {k: 'N'}, {k: 'N'}}, h, pathInfo{}, func(rets []AV, h2 *Heap, p pathInfo, fin *frame) {
-					// only paths where both evaluations succeeded matter here (errors: E-DISC)
-					for _, hc := range p.calls {
-						if hc.ret.atoms == ANull && hc.ret.prov == "" {
-							return
-						}
-					}
-					if len(p.calls) < 2 {
-						// returned before the second evaluation: must have latched
-						if h2.objs[id].fields[latch].tri&1 == 0 {
-							if keyClass(a) != "other" {
-								// first key fine, second not evaluated: cannot be right either
-							}
-							badPairs = append(badPairs, fmt.Sprintf("(%s, not evaluated)", a))
-						}
-						return
-					}
-					if h2.objs[id].fields[latch].tri&1 == 0 {
-						noLatch[keyClass(a)+"/"+keyClass(b)] = true
-						if keyClass(a) == "other" || keyClass(b) == "other" || keyClass(a) != keyClass(b) {
-							badPairs = append(badPairs, fmt.Sprintf("(%s, %s)", a, b))
-						}
-					}
-				})
-			}
-		}
+	adapters := c.lessAdapters()
+	if len(adapters) == 0 {
+		r.undecided("less|none", c.pos(c.A.CallFunction.Pos()), "", "no sort adapter with an expression-reference body found")
+	}
+	for _, ad := range adapters {
+		less := ad.less
 		r.Instances++
 		key := "less|" + fname(less)
-		good := 0
-		for k := range noLatch {
-			if k == "number/number" || k == "string/string" {
-				good++
+		if ad.latch < 0 {
+			r.viol(key, c.pos(less.Pos()), fname(less), "the sort adapter has no failure latch (bool or error field): Less cannot report an ill-typed key or a failed evaluation")
+			continue
+		}
+		if ad.opaque {
+			r.undecided(key, c.pos(less.Pos()), fname(less), "the adapter compares through a function value that is not one of a fixed set of library functions")
+			continue
+		}
+		var badPairs []string
+		goodTotal := 0
+		for _, choice := range ad.variants() {
+			noLatch := map[string]bool{}
+			for _, a := range UJSON.each() {
+				for _, b := range UJSON.each() {
+					x := c.newExec(UJSON, fmt.Sprintf("%s keys (%s, %s)", ad.label(choice), a, b))
+					x.hyp = atomHyp([]Atoms{a, b})
+					x.hypFns[c.A.Exec] = true
+					h := newHeap()
+					id := ad.object(c, h, AV{k: 'L', tri: 2, atoms: AArrMix, elemK: 'I', prov: "items"}, choice)
+					x.run(less, []AV{{k: 'P', tri: 2, obj: id}, {k: 'N'}, {k: 'N'}}, h, pathInfo{}, func(rets []AV, h2 *Heap, p pathInfo, fin *frame) {
+						// only paths where both evaluations succeeded matter here (errors: E-DISC)
+						for _, hc := range p.calls {
+							if hc.ret.atoms == ANull && hc.ret.prov == "" {
+								return
+							}
+						}
+						if len(p.calls) < 2 {
+							// returned before the second evaluation: must have latched
+							if !ad.latched(h2, id) {
+								badPairs = append(badPairs, fmt.Sprintf("(%s, not evaluated)", a))
+							}
+							return
+						}
+						if !ad.latched(h2, id) {
+							noLatch[keyClass(a)+"/"+keyClass(b)] = true
+							if keyClass(a) == "other" || keyClass(b) == "other" || keyClass(a) != keyClass(b) {
+								badPairs = append(badPairs, fmt.Sprintf("(%s, %s)", a, b))
+							}
+						}
+					})
+				}
 			}
+			good := 0
+			for k := range noLatch {
+				if k == "number/number" || k == "string/string" {
+					good++
+				}
+			}
+			if good != 1 {
+				badPairs = append(badPairs, fmt.Sprintf("%s accepts %d key kinds without failure, expected exactly one of number/string", ad.label(choice), good))
+			}
+			goodTotal += good
 		}
 		switch {
 		case len(badPairs) > 0:
@@ -702,8 +682,6 @@ func ruleKeys(c *Ctx) *RuleResult {
 				badPairs = append(badPairs[:6], "…")
 			}
 			r.viol(key, c.pos(less.Pos()), fname(less), "Less returns without recording a failure for key kinds "+strings.Join(badPairs, ", ")+": sort_by would succeed on inconsistently typed keys")
-		case good != 1:
-			r.viol(key, c.pos(less.Pos()), fname(less), fmt.Sprintf("Less accepts %d key kinds without failure, expected exactly one of number/string", good))
 		default:
 			r.ok(key, c.pos(less.Pos()), fname(less), "fails (latches) unless both keys are of the adapter's one kind; 144 key pairs interpreted")
 		}
